@@ -62,6 +62,7 @@ void __verif_unprotect(const void* p, unsigned long n) {
   for (size_t i = 0; i < g_prot.size(); ++i) if (g_prot[i].p == p && g_prot[i].n == n) { g_prot.erase(g_prot.begin() + i); break; }
 }
 void __verif_note(const char*) {}
+void __verif_havoc_int_range(long long, long long) {}
 void harness();
 }
 int main(int argc, char** argv) {
@@ -74,7 +75,7 @@ int main(int argc, char** argv) {
   } catch (...) {
     printf("EXCEPTION-ESCAPE unknown\n"); fflush(stdout); return 5;
   }
-  check_prot();
+  // protected regions are compared when they are unprotected; the harness objects are gone by now
   printf("DONE\n");
   return 0;
 }
